@@ -8,16 +8,16 @@ package watcher
 // (what the contracts can say about the watcher: which path is watched and when the reload action runs; the timing of
 // file-system events and the goroutine's scheduling are outside the technique)
 //@ func WatchFileForUpdates
-//@ prop C20
+//@ prop C20 C08
 //@ at call Add assert[watches-the-configured-path-as-cleaned] arg(Add, 1) == filepath.Clean(filename)
 
 //@ func WatchFileForUpdates$1
-//@ prop C20
+//@ prop C20 C08
 //@ at call filterEvent assert[events-are-filtered-against-the-watched-path-and-run-the-given-action] arg(filterEvent, 2) == filename
 //@     && arg(filterEvent, 3) == action && arg(filterEvent, 0) == watcher
 
 //@ func filterEvent
-//@ prop C20
+//@ prop C20 C08
 // (the switch in filterEvent compares booleans: an event for another name without the Remove bit also takes the first
 // case and reloads; a spurious reload is harmless for C20, so no clause restricts when the action may run)
 //@ ensures[write-or-create-of-the-watched-file-reloads] filepath.Clean(event.Name) == filename && !called(WaitForReplacement)
@@ -26,5 +26,5 @@ package watcher
 //@     && arg(WaitForReplacement, 2) == watcher
 
 //@ func WaitForReplacement
-//@ prop C20
+//@ prop C20 C08
 //@ at call Add assert[re-watches-the-same-path] arg(Add, 1) == filename && arg(Add, 0) == watcher && ret1(os.Stat) == nil && arg(os.Stat, 0) == filename
